@@ -145,6 +145,10 @@ def run(rep, tier, seed, model_ok=True, effort=1):
         tmsg = gen_value(r).strip("'\" \n\t") or "t"
         if "{" in cmsg + tmsg or "}" in cmsg + tmsg or "\n" in cmsg + tmsg:
             continue
+        # git itself removes comment lines ('#...') and surrounding blank space from messages (cleanup mode);
+        # that happens after the argument was passed verbatim and is not part of the property
+        if cmsg.lstrip().startswith("#") or tmsg.lstrip().startswith("#"):
+            continue
         prj = project.TempProject("MAJOR.MINOR.PATCH", "1.2.3", files={"a.txt": ["ver = {version}"]}, commit=True, tag=True, push=False, vcs="git")
         with prj:
             code, out, logs, exc = prj.run(impl, ["update", "--patch", "--no-fetch", "--commit-message", cmsg, "--tag-message", tmsg])
